@@ -8,9 +8,23 @@ extern "C" {
 #include "a/a.h"
 }
 
+#if defined(__has_feature)
+#if __has_feature(address_sanitizer)
+#include <sanitizer/asan_interface.h>
+#define VP_POISON(p, n) ASAN_POISON_MEMORY_REGION((p), (n))
+#define VP_UNPOISON(p, n) ASAN_UNPOISON_MEMORY_REGION((p), (n))
+#endif
+#endif
+#ifndef VP_POISON
+#define VP_POISON(p, n) ((void)(p), (void)(n))
+#define VP_UNPOISON(p, n) ((void)(p), (void)(n))
+#endif
+
 struct Shim
 {
     std::map<void *, size_t> live;
+    std::map<void *, size_t> cap; // in-place policy: capacity behind each block (the slack is poisoned for ASan)
+    bool inplace = false;         // false: every reallocation moves the block; true: a block grows in place while it fits its size class
     uint64_t requests = 0; // allocation requests (size > 0) seen so far
     uint64_t fail_at = 0;  // 1-based index of the request that fails (0: none)
     int mode = 0;          // 1: only request fail_at fails; 2: every request >= fail_at fails
@@ -19,8 +33,15 @@ struct Shim
     char bad_msg[160];
     void reset()
     {
-        for (auto &kv : live) { free(kv.first); }
+        for (auto &kv : live)
+        {
+            auto c = cap.find(kv.first);
+            if (c != cap.end()) { VP_UNPOISON(kv.first, c->second); }
+            free(kv.first);
+        }
         live.clear();
+        cap.clear();
+        inplace = false;
         requests = faults = 0;
         fail_at = 0;
         mode = 0;
@@ -50,6 +71,39 @@ static void *shim_alloc(void *addr, a_size size)
             ++s.faults;
             return nullptr; // the old block (if any) stays valid, like realloc
         }
+        if (s.inplace)
+        {
+            // the way ordinary allocators behave: a block keeps its address while the request fits its size class
+            // (next power of two >= 16); the unused tail is poisoned, so the sanitizer still sees exact sizes
+            if (addr)
+            {
+                size_t c = s.cap[addr], old = s.live[addr];
+                if (size <= c)
+                {
+                    if (size > old) { VP_UNPOISON((char *)addr + old, size - old); }
+                    else if (size < old) { VP_POISON((char *)addr + size, old - size); }
+                    s.live[addr] = size;
+                    return addr;
+                }
+            }
+            size_t c = 16;
+            while (c < size) { c *= 2; }
+            void *p = malloc(c);
+            if (!p) { return nullptr; }
+            VP_POISON((char *)p + size, c - size);
+            if (addr)
+            {
+                size_t old = s.live[addr];
+                memcpy(p, addr, old < size ? old : size);
+                VP_UNPOISON(addr, s.cap[addr]);
+                s.live.erase(addr);
+                s.cap.erase(addr);
+                free(addr);
+            }
+            s.live[p] = size;
+            s.cap[p] = c;
+            return p;
+        }
         // always move: a fresh exact-size block, so stale pointers into the old one are ASan errors
         void *p = malloc(size);
         if (!p) { return nullptr; }
@@ -65,6 +119,12 @@ static void *shim_alloc(void *addr, a_size size)
     }
     if (addr)
     {
+        auto c = s.cap.find(addr);
+        if (c != s.cap.end())
+        {
+            VP_UNPOISON(addr, c->second);
+            s.cap.erase(c);
+        }
         s.live.erase(addr);
         free(addr);
     }
